@@ -246,6 +246,7 @@ package parser
 //@ pure eventend(d, a) = a >= 2 && isNL(d[a-1]) && finalnl(d, a) >= 1 && isNL(d[finalnl(d, a)-1])
 
 //@ func splitFunc
+//@   allowunsafe the string view of the scanner's window is only passed to NewlineIndex, which returns two integers; nothing built from it is kept
 //@   ensures never_fails: err == nil
 //@   ensures within_the_window: 0 <= advance && advance <= len(data)
 //@   ensures nothing_from_nothing: len(data) == 0 ==> advance == 0 && len(token) == 0
